@@ -65,7 +65,7 @@ def cases(draw):
         regular = {"k": draw(st.integers(3, 10)), "first_frac": draw(st.sampled_from([0.05, 0.1, 0.25, 0.5, 0.8]))}
     return {"regular": regular, "shape": [rows, cols], "start": start, "duration": duration, "cuts": cuts, "models": models,
             "qe": draw(st.sampled_from([None, 1.0, 0.5, 0.123])), "lam": draw(st.sampled_from([2.0, 0.5, 3.7, 10.0])),
-            "det_type": draw(st.sampled_from(["CCD", "CMOS"]))}
+            "det_type": draw(st.sampled_from(["CCD", "CMOS", "MKID", "APD"]))}
 
 
 def _times(start, duration, cuts):
